@@ -35,11 +35,11 @@ def plan(tier: str, seed: int) -> Plan:
                                required=False,
                                bounds=f"spine {s}: two int|str leaves, two int leaves, symbolic array length, presence/order bits; every match checked"))
     for qi in range(6):
-        conds.append(Condition(f"names:q{qi}", "names", H, "names", {"qi": qi, "namepool": 41 if thorough else 36}, T * 2, required=False,
-                               bounds="member name from a pool of 36 (19 single characters of Sigma + 17 curated two-character names), concretised "
+        conds.append(Condition(f"names:q{qi}", "names", H, "names", {"qi": qi, "namepool": 43 if thorough else 38}, T * 2, required=False,
+                               bounds="member name from a pool of 38 (19 single characters of Sigma + 19 curated two-character names, control characters that need \\u00XX escapes included), concretised "
                                       "(json.dumps / the lexer are C boundaries): solver-driven enumeration"))
     for qi in range(5):
-        conds.append(Condition(f"names-async:q{qi}", "names", H, "names", {"qi": qi, "route": "async", "namepool": 41 if thorough else 36}, T * 2, required=False,
+        conds.append(Condition(f"names-async:q{qi}", "names", H, "names", {"qi": qi, "route": "async", "namepool": 43 if thorough else 38}, T * 2, required=False,
                                bounds="as names:q*, the matches obtained through finditer_async (the async twins build locations separately)"))
     return Plan(
         conditions=conds,
